@@ -7,3 +7,4 @@ import Proofs.ProbReal
 import Proofs.RenderReal
 import Proofs.RenderLinear
 import Proofs.RenderDC
+import Proofs.RenderTab
